@@ -133,6 +133,8 @@ def lean_value(kind, val):
         return "Int", ("(%s)" % val if val.startswith("-") else val)
     if kind in ("U8", "U16", "U32", "U64"):
         return "UInt" + kind[1:], val
+    if kind == "LB":   # list of bytes (from a string, given as comma separated numbers)
+        return "List UInt8", "[" + ", ".join(x for x in val.split(",") if x) + "]"
     if kind == "LN":   # list of naturals
         return "List Nat", "[" + ", ".join(x for x in val.split(",") if x) + "]"
     if kind == "LS":   # list of strings, separated by \x1f
